@@ -565,6 +565,7 @@ func runWorld(data json.RawMessage) vh.Verdict {
 	cm := &comparer{c: &c, class: implClass(c.Impl)}
 	var copies []ingest.Feature
 	var snaps []b6.World
+	var snapTaken []obs.Observation
 	type snapshotter interface{ Snapshot() b6.World }
 	deadline := func(what string, stepNo int, f func()) bool {
 		if !obs.WithDeadline(10*time.Second, f) {
@@ -615,7 +616,13 @@ func runWorld(data json.RawMessage) vh.Verdict {
 			if !ok {
 				continue
 			}
-			snaps = append(snaps, sn.Snapshot())
+			sw := sn.Snapshot()
+			snaps = append(snaps, sw)
+			var taken obs.Observation
+			if !deadline("observe-snapshot", i, func() { taken = obs.Observe(sw, c.IDs, opts) }) {
+				break
+			}
+			snapTaken = append(snapTaken, taken)
 		case "mutate":
 			for _, p := range mutateCopies(copies) {
 				cm.add(i, "mutate", "clone-shares-state", p)
@@ -635,11 +642,14 @@ func runWorld(data json.RawMessage) vh.Verdict {
 			if p != "" {
 				cm.add(i, "roundtrip", "panic", p)
 			} else if rerr != nil {
-				cm.add(i, "roundtrip", "error", rerr.Error())
+				cm.add(i, "roundtrip", "error:"+errClass(rerr), rerr.Error())
 			} else {
 				var got obs.Observation
 				if deadline("observe-imported", i, func() { got = obs.Observe(fresh, c.IDs, opts) }) {
-					cm.compareObs(i, "roundtrip:", expState{Eff: s.Eff, Obs: s.Obs}, got)
+					if obs.Canon(got) != obs.Canon(before) {
+						cm.add(i, "roundtrip", "differs:"+firstDiff(before, got), fmt.Sprintf("imported world differs from the edited one: edited %s imported %s", obs.Canon(before), obs.Canon(got)))
+					}
+					cm.compareObs(i, "rt-spec:", expState{Eff: s.Eff, Obs: s.Obs}, got)
 				}
 			}
 			continue
@@ -653,10 +663,17 @@ func runWorld(data json.RawMessage) vh.Verdict {
 		cm.compareObs(i, "", expState{Eff: s.Eff, Obs: s.Obs}, cur)
 		cm.validity(i, cur)
 		for j, sw := range snaps {
-			if j < len(s.Snaps) {
+			if j < len(snapTaken) {
+				// a snapshot answers every query as it did when it was taken (real vs real) ...
 				var got obs.Observation
 				if deadline("observe-snapshot", i, func() { got = obs.Observe(sw, c.IDs, opts) }) {
-					cm.compareObs(i, fmt.Sprintf("snap:"), s.Snaps[j], got)
+					if obs.Canon(got) != obs.Canon(snapTaken[j]) {
+						cm.add(i, "snap:changed", firstDiff(snapTaken[j], got), fmt.Sprintf("snapshot %d changed after it was taken: when taken %s now %s", j, obs.Canon(snapTaken[j]), obs.Canon(got)))
+					}
+					// ... which is the specification's frozen copy of the world at that moment
+					if j < len(s.Snaps) {
+						cm.compareObs(i, "snapspec:", s.Snaps[j], got)
+					}
 				}
 			}
 		}
@@ -687,6 +704,28 @@ func runWorld(data json.RawMessage) vh.Verdict {
 		v.Obs = map[string]interface{}{"mismatches": ms}
 	}
 	return v
+}
+
+// errClass reduces an error message to its final clause without IDs ("ordered clockwise", "not closed", ...).
+func errClass(err error) string {
+	msg := err.Error()
+	if i := strings.Index(msg, "\n"); i > 0 {
+		msg = msg[:i]
+	}
+	parts := strings.Split(msg, ": ")
+	last := parts[len(parts)-1]
+	fields := strings.Fields(last)
+	var keep []string
+	for _, f := range fields {
+		if strings.ContainsAny(f, "/0123456789") {
+			continue
+		}
+		keep = append(keep, f)
+	}
+	if len(keep) > 4 {
+		keep = keep[:4]
+	}
+	return parts[0] + ":" + strings.Join(keep, "-")
 }
 
 func firstDiff(a, b obs.Observation) string {
@@ -720,5 +759,6 @@ func firstDiff(a, b obs.Observation) string {
 func main() {
 	vh.RegisterFunc("mworld", runWorld)
 	vh.RegisterFunc("sworld", runStatic)
+	vh.Tool("trybuild", tryBuild)
 	vh.Main()
 }
